@@ -510,6 +510,50 @@ Exact(fmt, b) ==
       [] fmt = "PrOutBasic" -> Exact_PrOutBasic(b) [] fmt = "PrOutSpecIpt" -> Exact_PrOutSpecIpt(b)
       [] fmt = "PrOutRegMove" -> Exact_PrOutRegMove(b) [] fmt = "XcopyLid1" -> Exact_XcopyLid1(b) [] fmt = "XcopyLid4" -> Exact_XcopyLid4(b)
 
+\* ---- READ CD  MMC-6 6.20 (tables 351-356): per sector the main channel fields selected by the Main Channel
+\* Selection Bits (SYNC 12, header 4, sub-header 8, user data, EDC/ECC), then C2 (294 / 296), then sub-channel
+\* (Q 16 / raw or R-W 96).  par = [est, mcsb (5 bits), c2ei, scsb, tl, lba].  Covered selections: F8h (everything),
+\* 10h (user data), 20h (header); sector types CD-DA (1), Mode 1 (2), Mode 2 formless (3), Mode 2 form 1 (4).
+RcUser(est) == CASE est = 1 -> 2352 [] est = 2 -> 2048 [] est = 3 -> 2336 [] est = 4 -> 2048 [] OTHER -> 0
+RcMain(par) ==      \* sequence of <<name, size>> in wire order
+    LET est == par.est  m == par.mcsb IN
+    IF est = 1 THEN (IF m \in {31, 2} THEN << <<"data", 2352>> >> ELSE <<>>)
+    ELSE IF m = 2 THEN << <<"data", RcUser(est)>> >>
+    ELSE IF m = 4 THEN << <<"hdr", 4>> >>
+    ELSE IF m = 31 THEN
+         (CASE est = 2 -> << <<"sync", 12>>, <<"hdr", 4>>, <<"data", 2048>>, <<"edc", 4>>, <<"zero", 8>>, <<"p-parity", 172>>, <<"q-parity", 104>> >>
+            [] est = 3 -> << <<"sync", 12>>, <<"hdr", 4>>, <<"data", 2336>> >>
+            [] est = 4 -> << <<"sync", 12>>, <<"hdr", 4>>, <<"subhdr", 8>>, <<"data", 2048>>, <<"edc", 4>>, <<"p-parity", 172>>, <<"q-parity", 104>> >>
+            [] OTHER -> <<>>)
+    ELSE <<>>
+RECURSIVE RcSum(_)
+RcSum(q) == IF q = <<>> THEN 0 ELSE q[1][2] + RcSum(Tail(q))
+RcC2(par) == CASE par.c2ei = 1 -> 294 [] par.c2ei = 2 -> 296 [] OTHER -> 0
+RcSub(par) == CASE par.scsb = 2 -> 16 [] par.scsb = 4 -> 96 [] par.scsb = 1 -> 96 [] OTHER -> 0
+RcStride(par) == RcSum(RcMain(par)) + RcC2(par) + RcSub(par)
+RECURSIVE RcFields(_, _, _, _)
+RcFields(b, off, q, p) ==
+    IF q = <<>> THEN {}
+    ELSE LET nm == q[1][1]  sz == q[1][2] IN
+         (CASE nm = "hdr" -> { Nm(p \o "/sector-header/minute", Fl(b, off, 7, 8)), Nm(p \o "/sector-header/second", Fl(b, off + 1, 7, 8)),
+                               Nm(p \o "/sector-header/frame", Fl(b, off + 2, 7, 8)), Nm(p \o "/sector-header/mode", Fl(b, off + 3, 7, 8)) }
+            [] nm = "subhdr" -> { Cnt(p \o "/sector-subheader", 2),
+                                  Nm(p \o "/sector-subheader/0/file-number", Fl(b, off, 7, 8)), Nm(p \o "/sector-subheader/0/channel-number", Fl(b, off + 1, 7, 8)),
+                                  Nm(p \o "/sector-subheader/0/sub-mode", Fl(b, off + 2, 7, 8)),
+                                  Nm(p \o "/sector-subheader/1/file-number", Fl(b, off + 4, 7, 8)), Nm(p \o "/sector-subheader/1/channel-number", Fl(b, off + 5, 7, 8)),
+                                  Nm(p \o "/sector-subheader/1/sub-mode", Fl(b, off + 6, 7, 8)) }
+            [] nm = "zero" -> {}
+            [] OTHER -> { Bl(p \o "/" \o nm, Bs(b, off, sz)) })
+         \cup RcFields(b, off + sz, Tail(q), p)
+RcSector(b, off, par, p) ==
+    LET mainq == RcMain(par)  ms == RcSum(mainq) IN
+    RcFields(b, off, mainq, p)
+    \cup (CASE par.c2ei = 1 -> { Bl(p \o "/c2ei-data", Bs(b, off + ms, 294)) }
+            [] par.c2ei = 2 -> { Bl(p \o "/c2ei/data", Bs(b, off + ms, 296)) } [] OTHER -> {})
+    \cup (IF RcSub(par) > 0 THEN { Bl(p \o "/subchannel/data", Bs(b, off + ms + RcC2(par), RcSub(par))) } ELSE {})
+P_ReadCd(b, par) == UNION { RcSector(b, i * RcStride(par), par, ToString(par.lba + i)) : i \in 0..(par.tl - 1) }
+Ok_ReadCd(b, par) == RcMain(par) # <<>> /\ par.scsb \in {0, 2, 4} /\ par.c2ei \in 0..2 /\ Len(b) >= par.tl * RcStride(par)
+
 \* ---- dispatch -----------------------------------------------------------------------------------
 Formats == { "ReadCapacity10", "ReadCapacity16", "ReportLuns", "GetLBAStatus", "InquiryStd", "Vpd00", "Vpd80",
              "Vpd83", "Vpd86", "VpdB0", "VpdB1", "VpdB2", "VpdB3", "ModeSense6", "ModeSense10", "RtpgLen", "RtpgExt",
